@@ -858,6 +858,15 @@ func (rw *regWorld) apply(op string, judge bool) (viol []string, digest string, 
 	rt.WaitIdle()
 	rt.JoinFinished()
 	outs := w.Since(mark)
+	if tolerateReread {
+		var keep []world.Out
+		for _, o := range outs {
+			if !(o.Class == "read" && o.Fn == "NodeManagementDetailedDiscoveryData") {
+				keep = append(keep, o)
+			}
+		}
+		outs = keep
+	}
 	var ds []string
 	for _, o := range outs {
 		ds = append(ds, o.String())
@@ -868,15 +877,6 @@ func (rw *regWorld) apply(op string, judge bool) (viol []string, digest string, 
 			return viol, digest, effect
 		}
 		return nil, digest, effect
-	}
-	if tolerateReread {
-		var keep []world.Out
-		for _, o := range outs {
-			if !(o.Class == "read" && o.Fn == "NodeManagementDetailedDiscoveryData") {
-				keep = append(keep, o)
-			}
-		}
-		outs = keep
 	}
 	for _, s := range matchOuts(outs, exp) {
 		addV(s + " | op=" + op)
